@@ -316,6 +316,23 @@ def run_suite(suite, tier, seed, tag, replay_in=None, extra_env=None):
                 i = out1.find("fatal error:")
             res.extra["crashed_case"] = open(os.path.join(tmpdir, left[0])).read().strip()
             res.extra["crash_log"] = out1[i:i + 3000]
+    if (rc != 0 or not os.path.exists(trace)) and not res.extra.get("crashed_case") and suite["name"] != "e2e":
+        # a driver that dies (or is killed) is run once more before it counts: a failure that does not
+        # repeat has no failing input to show, and a compile error or a panic the code under test causes
+        # for some generated input repeats. The first log is kept for diagnosis.
+        try:
+            with open(os.path.join(BUILD, "driver-failed-once-%s-%s.log" % (tag, suite["name"])), "w") as fh:
+                fh.write(out[-20000:])
+        except OSError:
+            pass
+        try:
+            os.remove(trace)
+        except OSError:
+            pass
+        rc, out = run_go_driver(suite, trace, env, timeout)
+        if rc == 0 and os.path.exists(trace):
+            res.extra["driver_retried"] = True
+        res.driver_rc, res.driver_log = rc, out[-6000:]
     if rc != 0 or not os.path.exists(trace):
         res.wall = time.time() - t0
         shutil.rmtree(tmpdir, ignore_errors=True)
